@@ -176,7 +176,8 @@ impl RK4 {
             cont[n..2 * n].copy_from_slice(&k1);
 
             // Update solution
-            x += h;
+            // x + (xend - x) can round to a neighbour of xend: land exactly
+            x = if last { xend } else { x + h };
             for i in 0..n {
                 y[i] += h * (B1 * k1[i] + B2 * k2[i] + B3 * k3[i] + B4 * k4[i]);
             }
